@@ -28,6 +28,7 @@ SumXPos(D) == LET RECURSIVE S(_) S(i) == IF i > N(D) THEN 0 ELSE (IF IsNull(D.x[
 Preds == {"cells_pos", "row_x_le_y", "ew_row_x_le_y", "sum_x_pos"}
 OutKind(p) == CASE p = "cells_pos" -> "table" [] p \in {"row_x_le_y", "ew_row_x_le_y"} -> "series" [] p = "sum_x_pos" -> "bool"
 
+(* ("intcols" / "tuplecols": the columns x, y are labelled 0, 1 / by tuples - MultiIndex columns - instead of strings)    *)
 (* the index labelling of the frame (unique labels, repeated labels, a two-level MultiIndex, unique or with repeated   *)
 (* entries): nothing below reads it - verdict, excused nulls and the reported rows are about ROWS - and the function    *)
 (* never raises, so the outcome is a failed check, never an error of the check                                          *)
@@ -35,7 +36,7 @@ VARIABLES D, pred, ina, nfc, warn, pc, answer, verdict, ix
 vars == <<D, pred, ina, nfc, warn, pc, answer, verdict, ix>>
 
 Init == /\ D \in Frames /\ pred \in Preds /\ ina \in BOOLEAN /\ nfc \in {0, 1} /\ warn \in BOOLEAN
-        /\ ix \in (IF N(D) >= 2 THEN {"unique", "dup", "multi", "multidup"} ELSE {"unique", "multi"})
+        /\ ix \in (IF N(D) >= 2 THEN {"unique", "dup", "multi", "multidup"} ELSE {"unique", "multi"}) \cup {"intcols", "tuplecols"}
         /\ pc = "apply" /\ answer = <<>> /\ verdict = "none"
 (* apply: the raw answer of the function *)
 Apply == /\ pc = "apply"
